@@ -3,9 +3,15 @@ Inventory translator (C19/C20): regenerates lean/BSVerif/Generated/InventoryCons
 of the current tree.
 
   dtors   : every user-provided destructor (one with a body) of the library, with the list of callees in its
-            body that MAY THROW (transitively: a library function may throw if it contains a `throw`, or calls
-            something that may throw; a callee declared noexcept cannot; calls inside a try with a catch-all
-            are ignored; unknown non-library callees are assumed to throw unless whitelisted)
+            body through which an exception MAY ESCAPE (transitively: a library function may throw if it contains
+            a `throw`, or calls something that may throw; a callee declared noexcept cannot; unknown non-library
+            callees are assumed to throw unless whitelisted). A call inside `try { … } catch (...) { … }` does not
+            escape: the catch-all handler takes every exception of the try block. The HANDLERS of a try statement are
+            analysed as ordinary code of the enclosing context, so a `throw;` / `throw x;` or a throwing call
+            inside a handler (a catch-all that rethrows) counts again; a try block WITHOUT a catch-all handler
+            protects nothing.
+  dtorsDeferred : the same destructors with the callees that may throw INSIDE such a guarded try block (what the
+            destructor catches and defers): removing the try/catch moves them back into `dtors`.
   statics : every object of static storage duration declared by the library (namespace scope, static data
             members, function-local statics), with constness and the functions that write to it after
             initialisation
@@ -159,31 +165,36 @@ class Inv:
         return find(inner[0])
 
     def may_throw(self, fn, stack=()):
-        """list of reasons (callee names / 'throw') why the function body may throw"""
+        """list of reasons (callee names / 'throw') why an exception may leave the function body;
+        fn['_guarded'] = the reasons that are confined by a try block with a non-rethrowing catch-all"""
         key = id(fn)
         if key in stack:
             return []
         if "_mt" in fn:
             return fn["_mt"]
         reasons = []
+        guarded = []
         body = next((c for c in fn.get("inner", []) if c.get("kind") == "CompoundStmt"), None)
+
+        def is_catch_all(c):
+            # `catch (...)`: a CXXCatchStmt without exception declaration (clang dumps the declaration as a VarDecl child)
+            return c.get("kind") == "CXXCatchStmt" and not any(g.get("kind") == "VarDecl" for g in c.get("inner", []) or [])
 
         def walk(n, in_catch_all):
             k = n.get("kind")
             if k == "CXXTryStmt":
                 inner = n.get("inner", [])
-                catch_all = any(c.get("kind") == "CXXCatchStmt" and not any(g.get("kind") == "VarDecl" for g in c.get("inner", []) or [])
-                                for c in inner[1:])
+                catch_all = any(is_catch_all(c) for c in inner[1:])
                 if inner:
-                    walk(inner[0], in_catch_all or catch_all)
+                    walk(inner[0], in_catch_all or catch_all)       # the try block
                 for c in inner[1:]:
-                    walk(c, in_catch_all)
+                    walk(c, in_catch_all)                           # handlers: code of the enclosing context (rethrow escapes)
                 return
             if k in ("LambdaExpr",):
                 return   # a lambda body only runs when called
-            if k == "CXXThrowExpr" and not in_catch_all:
-                reasons.append("throw")
-            if k in CALL_KINDS and not in_catch_all:
+            if k == "CXXThrowExpr":
+                (guarded if in_catch_all else reasons).append("throw")
+            if k in CALL_KINDS:
                 nm, noexc, rid = self.callee_of(n)
                 if nm and not noexc:
                     cands = []
@@ -198,10 +209,10 @@ class Inv:
                             if "noexcept" in ((c.get("type") or {}).get("qualType") or ""):
                                 continue
                             if self.may_throw(c, stack + (key,)):
-                                reasons.append(nm)
+                                (guarded if in_catch_all else reasons).append(nm)
                                 break
                     elif nm not in NOTHROW_EXTERNAL:
-                        reasons.append(nm)
+                        (guarded if in_catch_all else reasons).append(nm)
             for c in n.get("inner", []) or []:
                 walk(c, in_catch_all)
 
@@ -210,6 +221,7 @@ class Inv:
         out = sorted(set(reasons))
         if not stack:
             fn["_mt"] = out
+            fn["_guarded"] = sorted(set(guarded))
         return out
 
     # ---- writers of statics ---------------------------------------------------------------------------
@@ -307,9 +319,12 @@ def generate(repo, outdir, workdir, objdir=None):
     inv.find_writers(objs)
     # destructors: merge duplicates (template pattern + instantiations) by name, union of reasons
     d = {}
+    g = {}
     for name, node in inv.dtors:
         d.setdefault(name, set()).update(inv.may_throw(node))
+        g.setdefault(name, set()).update(node.get("_guarded", []))
     dtors = sorted(d.items())
+    deferred = sorted(g.items())
     stat = {}
     for info in inv.statics.values():
         f = info["file"]
@@ -323,9 +338,13 @@ def generate(repo, outdir, workdir, objdir=None):
         e["writers"].update(re.sub(r"<[^>]*>", "", w) for w in info["writers"])
     lines = ["-- GENERATED by tools/translate_inv.py from the clang AST of the current /repo tree. DO NOT EDIT.",
              "namespace BSVerif.Generated.Inventory", "",
-             "/-- (user-provided destructor, callees in its body that may throw) -/",
+             "/-- (user-provided destructor, callees in its body through which an exception may leave the destructor) -/",
              "def dtors : List (String × List String) := ["]
     lines.append(",\n".join(f"  ({lean_str(n)}, [{', '.join(lean_str(r) for r in sorted(rs))}])" for n, rs in dtors))
+    lines += ["]", "",
+              "/-- (user-provided destructor, callees that may throw inside a try block with a catch-all handler: caught in the destructor) -/",
+              "def dtorsDeferred : List (String × List String) := ["]
+    lines.append(",\n".join(f"  ({lean_str(n)}, [{', '.join(lean_str(r) for r in sorted(rs))}])" for n, rs in deferred))
     lines += ["]", "",
               "/-- (object of static storage duration, constexpr|const|mutable, namespace|class|function, functions writing to it after initialisation) -/",
               "def statics : List (String × String × String × List String) := ["]
